@@ -778,7 +778,7 @@ type c06Plan struct {
 }
 
 func runC06(e *env) {
-	e.res.Rule = "renders: ill-typed bundles from the program grammar (hooks: any atom at any operand, wrong arities of all functions and directives, range steps <=0 and overflowing, $ij, bad accesses, % by zero) x {data of the declared kinds, arbitrary JSON data with missing params, no data} x {no ij, ij}; duplicate template names across files; inputs sharing a file name (long/short siblings, every order); floats of every kind at every argument position; exhaustive enumerations (binary operators x operand kinds, functions x argument counts 0..4 x kinds, directives x argument counts x kinds, loop functions, data-bounded recursion); soyhtml.EvalExpr on the closed enumerations; soy.ParseGlobals on generated files and on a malformed-line stream; EvalExpr on malformed token soups. Every implementation run in a worker subprocess (3 GiB, per-case timeout). Non-trivial = the case reaches an error, a call, a loop or a directive; distinct by source + data."
+	e.res.Rule = "renders: ill-typed bundles from the program grammar (hooks: any atom at any operand, wrong arities of all functions and directives, range steps <=0 and overflowing, $ij, bad accesses, % by zero) x {data of the declared kinds, arbitrary JSON data with missing params, no data} x {no ij, ij}; duplicate template names across files; inputs sharing a file name (long/short siblings, every order); floats of every kind at every argument position; exhaustive enumerations (binary operators x operand kinds, functions x argument counts 0..4 x kinds, directives x argument counts x kinds, loop functions, data-bounded recursion); soyhtml.EvalExpr on the closed enumerations; soy.ParseGlobals on generated files and on a malformed-line stream; EvalExpr on malformed token soups; soyjs.Write on every file of the accepted bundles of the ill-typed and nasty-literal streams and of hand-written deep / message / loop shapes x {ES5, ES6} x {no message bundle, a stale bundle whose parts do not belong to the message} x {buffer, failing writer, panicking writer} (oracle: returns nil or an error; recovered run-time errors are counted, not violations). Every implementation run in a worker subprocess (3 GiB, per-case timeout). Non-trivial = the case reaches an error, a call, a loop or a directive; distinct by source + data."
 	if e.replay != "" {
 		c06Replay(e)
 		return
@@ -788,6 +788,7 @@ func runC06(e *env) {
 	c06Exprs(e, perCase)
 	c06Globals(e, perCase)
 	c06Ranges(e)
+	c06JsWrites(e, perCase)
 }
 
 func paramNamesOf(files []srcFile, entry string) []string {
@@ -1714,6 +1715,10 @@ func c06Replay(e *env) {
 		var c c06Glob
 		json.Unmarshal(rp.Case, &c)
 		c06ReplayGlob(e, c, perCase)
+	case "jswrite":
+		var c c06JsCase
+		json.Unmarshal(rp.Case, &c)
+		c06ReplayJs(e, c, perCase)
 	default:
 		e.res.Note("replay file has no C06 case")
 	}
